@@ -120,6 +120,7 @@ func (c *trCtx) assignedIn2(through bool, nodes ...ast.Node) []types.Object {
 			case *ast.CallExpr:
 				c.markingCall = true
 				c.treeAssignedIn(x, through, mark, assigned)
+				c.builderAssignedIn(x, mark)
 				c.perfAssignedIn(x, mark, assigned)
 				if id, ok := x.Fun.(*ast.Ident); ok && id.Name == "delete" && len(x.Args) == 2 {
 					mark(x.Args[0])
@@ -526,6 +527,9 @@ func (c *trCtx) exprStmt(x *ast.ExprStmt, k trK) trLines {
 	if r, ok := c.treeStmt(call, nil, false, k); ok {
 		return r
 	}
+	if r, ok := c.builderStmt(call, nil, false, k); ok {
+		return r
+	}
 	if r, ok := c.printfStmt(call, k); ok {
 		return r // fmt.Printf in a closure: appended to the log `stdout` (trans_units_perf.go)
 	}
@@ -751,6 +755,9 @@ func (c *trCtx) assign(x *ast.AssignStmt, k trK) trLines {
 		}
 		if call, ok := x.Rhs[0].(*ast.CallExpr); ok {
 			if r, ok := c.treeStmt(call, x.Lhs, x.Tok == token.DEFINE, k); ok {
+				return r
+			}
+			if r, ok := c.builderStmt(call, x.Lhs, x.Tok == token.DEFINE, k); ok {
 				return r
 			}
 			if out, ok := c.effectCall(call, x.Lhs, x.Tok == token.DEFINE, k); ok {
